@@ -74,7 +74,9 @@ def member(o, T):
                 return False
         for k, v in o.items():
             if k not in hints:
-                continue    # TypedDicts are open (PEP 589): extra keys do not exclude a dict from the type
+                if not isinstance(k, str):
+                    return False    # the keys of a TypedDict are strings
+                continue    # TypedDicts are open (PEP 589): extra (string) keys do not exclude a dict from the type
             if not member(v, hints[k]):
                 return False
         return True
@@ -84,6 +86,8 @@ def member(o, T):
         a = args[0]
         if a is Any or a is object:
             return True
+        if a is None or a is type(None):
+            return o is type(None)
         if _is_union(a):
             return any(member(o, type[x]) for x in get_args(a))
         if a in (float, complex):
